@@ -6,7 +6,7 @@ def gen(rnd, n):
     s = ".".join(str(rnd.choice([0, 0, 1, 1, 2, 10, 11, 2147483648])) for _ in range(n))
     if rnd.random() < 0.3: s += rnd.choice("abz")
     for _ in range(rnd.choice([0, 0, 1, 1, 2, 3])):
-        s += "_" + rnd.choice(SUF) + rnd.choice(["", "", "0", "1", "2", "10"])
+        s += "_" + rnd.choice(SUF) + rnd.choice(["", "", "0", "1", "2", "10", "999999999", "1000000000", "2147483648", "20210530193627"])
     if rnd.random() < 0.4: s += "-r" + str(rnd.choice([0, 1, 2, 10]))
     return s
 def seeded(U, rnd, quick):
@@ -25,6 +25,6 @@ def check(run):
     if bad:
         raise vlib.Infra("Apk.tla disagrees with apk-tools' version.data: %r" % bad[:3])
     run.extra["spec_audit"] = {"fixture_lines": n, "disagreements": 0}
-    return refcheck.run_ref(run, "C14", ["alpine"], (1050, 4000), seeded_fn=seeded,
+    return refcheck.run_ref(run, "C14", ["alpine"], (1050, 4000), seeded_fn=seeded, boundary_max=2**31,  # the property claims magnitudes 0..2^31
         rule="pairs of well-formed members (nine known suffixes, no leading zeros, no hash) with equal numeric component counts, within blocks of <=350 members of the TLC-generated universe + seeded versions; judged by Apk.tla with a missing revision read as -r0",
         assumptions=["Apk.tla transcribes apk-tools 2.x version.c; audited by the 708 lines of apk-tools' version.data shipped in the repository (0 disagreements, re-checked on every run); no executable apk on this image"])
